@@ -182,8 +182,11 @@ def drive(part, strategy, oracle, n, seed, stats: Stats, known=frozenset(), shri
     from hypothesis import seed as hseed
 
     last = {}
+    budget = float(os.environ.get("VERIF_SHRINK_S", "45" if os.environ.get("VERIF_TIER", "quick") == "quick" else "240"))
 
     def body(case):
+        if "t0" in last and time.time() - last["t0"] > budget:
+            return  # shrink budget used up: let Hypothesis wind down, keep the best case found
         res = oracle(case)
         stats.record(part, case, res)
         unknown = []
@@ -193,6 +196,7 @@ def drive(part, strategy, oracle, n, seed, stats: Stats, known=frozenset(), shri
             else:
                 unknown.append(v)
         if unknown:
+            last.setdefault("t0", time.time())
             last["case"] = case
             last["v"] = unknown
             raise _Violation(unknown[0]["sig"])
@@ -213,7 +217,11 @@ def drive(part, strategy, oracle, n, seed, stats: Stats, known=frozenset(), shri
     test = hseed(seed)(test)
     try:
         test()
-    except _Violation:
+    except Exception as e:  # noqa: BLE001
+        if "v" not in last:
+            raise
+        if not isinstance(e, _Violation) and "lak" not in type(e).__name__:
+            raise
         v = last["v"][0]
         stats.violations.append(
             {"part": part, "sig": v["sig"], "msg": v["msg"], "case": last["case"],
@@ -358,6 +366,7 @@ def run_check(mod, argv=None):
     ap.add_argument("--seed", type=int, default=None)
     args = ap.parse_args(argv)
     tier = args.tier if args.tier in ("quick", "thorough") else "quick"
+    os.environ["VERIF_TIER"] = tier  # read by the shrink budget in worker processes
     seed = args.seed if args.seed is not None else int(os.environ.get("VERIF_SEED", "1") or 1)
     pid = mod.PID
     ctx = Ctx(pid, tier, seed)
